@@ -573,6 +573,37 @@ func genPrograms(prop, out, tier string, rng *rand.Rand) {
 		}
 		RunTasks(sink, dtasks, progNontrivial)
 	}
+	if prop == "C14" || prop == "C17" {
+		// directed: things that are removed and come back under the same name (a family dropped and
+		// re-created, a table deleted and re-created, rows dropped and re-written) over several rows:
+		// nothing of the old content may resurface on any engine
+		t := tname(parentA, "t1")
+		set := func(key, fam, q, v string) Call {
+			return Call{Req: Req{Kind: "mutate", Table: t, Key: []byte(key), Muts: []Mutation{{Kind: "set", Fam: fam, Q: []byte(q), Ts: 1000, V: []byte(v)}}}, Now: 1000}
+		}
+		create := Call{Req: Req{Kind: "create", Parent: parentA, Tid: "t1", Fams: []FamDef{{Name: "cf"}, {Name: "cf2"}}}, Now: 1000}
+		fill := []Call{create, set("r1", "cf", "q", "1"), set("r1", "cf2", "q", "2"), set("r2", "cf2", "only", "3"), set("r3", "cf2", "x", "4"), set("r3", "cf", "y", "5"), set("r4", "cf", "z", "6"), set("s1", "cf2", "w", "7")}
+		rd := Call{Req: Req{Kind: "read", Table: t}, Now: 1000}
+		get := Call{Req: Req{Kind: "get", Table: t}, Now: 1000}
+		mod := func(mods ...FMod) Call { return Call{Req: Req{Kind: "modify", Table: t, Mods: mods}, Now: 1000} }
+		tails := [][]Call{
+			{mod(FMod{Kind: "drop", ID: "cf2"}), rd, mod(FMod{Kind: "create", ID: "cf2"}), rd, get, set("r2", "cf2", "new", "8"), rd},
+			{mod(FMod{Kind: "drop", ID: "cf2"}, FMod{Kind: "create", ID: "cf2"}), rd, set("r9", "cf2", "new", "8"), rd},
+			{mod(FMod{Kind: "drop", ID: "cf"}), mod(FMod{Kind: "drop", ID: "cf2"}), rd, mod(FMod{Kind: "create", ID: "cf"}), mod(FMod{Kind: "create", ID: "cf2"}), rd, set("r1", "cf", "q", "9"), rd},
+			{{Req: Req{Kind: "delete", Table: t}, Now: 1000}, rd, create, rd, get, set("r2", "cf", "q", "9"), rd},
+			{{Req: Req{Kind: "drop", Table: t, All: true}, Now: 1000}, rd, set("r2", "cf", "q", "9"), rd, mod(FMod{Kind: "drop", ID: "cf2"}), mod(FMod{Kind: "create", ID: "cf2"}), rd},
+			{{Req: Req{Kind: "drop", Table: t, HasPfx: true, Prefix: []byte("r")}, Now: 1000}, rd, set("r2", "cf2", "q", "9"), rd, {Req: Req{Kind: "drop", Table: t, HasPfx: true, Prefix: []byte("s")}, Now: 1000}, rd},
+			{{Req: Req{Kind: "mutate", Table: t, Key: []byte("r3"), Muts: []Mutation{{Kind: "delfam", Fam: "cf2"}}}, Now: 1000}, {Req: Req{Kind: "mutate", Table: t, Key: []byte("r2"), Muts: []Mutation{{Kind: "delrow"}}}, Now: 1000}, rd, set("r2", "cf2", "only", "9"), set("r3", "cf2", "z", "9"), rd},
+		}
+		var dtasks []Task
+		for _, en := range engines() {
+			for _, tail := range tails {
+				prog := append(append([]Call{}, fill...), tail...)
+				dtasks = append(dtasks, Task{en, "removed-and-recreated", prog})
+			}
+		}
+		RunTasks(sink, dtasks, progNontrivial)
+	}
 	if prop == "C03" || prop == "C17" {
 		// result sets that span several response messages: rows of 300 cells, limits around the flush
 		t := tname(parentA, "t1")
@@ -598,6 +629,10 @@ func genPrograms(prop, out, tier string, rng *rand.Rand) {
 			results[i] = runConc(j.en, j.setup, j.threads, j.sched, j.final, j.bulk, j.tag)
 		})
 		for _, c := range results {
+			if c == nil || len(c.FinalR) != len(c.Final) {
+				sink.stats.Skipped++
+				continue
+			}
 			js, _ := json.Marshal(c)
 			pc := Case{Store: c.Store, Tag: c.Tag}
 			for i, f := range c.Final {
